@@ -49,6 +49,18 @@ pub fn check(cx: &Cx, rep: &mut Report) {
                 if boundaries != 0 {
                     rep.fail(P, "R3", "non_restartable_restarted", format!("non-restartable actor tag {} went through {boundaries} restart(s)", af.tag), vec![af.incs[1].s_in]);
                 }
+                // "ignores the request": nothing else changes either, in particular its timers keep their schedule
+                if af.has_timers {
+                    let mut sub = Report::default();
+                    super::c10::check(cx, &mut sub);
+                    rep.premise("C07.R3.non_restartable_timers_unaffected");
+                    for v in sub.violations.into_iter().filter(|v| v.rule == "R2") {
+                        // only timers of this actor
+                        if tms.iter().any(|t| t.actor == af.task && v.at.first() == Some(&t.reg)) {
+                            rep.fail(P, "R3", format!("non_restartable_timers_disturbed;{}", v.sig), v.msg, v.at);
+                        }
+                    }
+                }
             }
             _ => {
                 // R3: number of processed restarts
